@@ -3,7 +3,7 @@
    C11: accounting / exactly_once, group_integrity, dests_permitted, non_gateable_identity, empty_id_rejected,
         broker_composites_not_gateable.   C17: expire_success, expired_gone, flushall_empties, memory_bound.
    C12 (gated part): gated_reentry_terminates. *)
-From Coq Require Import List Bool Arith NArith ZArith Lia Permutation.
+From Coq Require Import List Bool Arith NArith ZArith Lia Permutation Sorted.
 From Verif Require Import Gated.
 Import ListNotations.
 Open Scope Z_scope.
@@ -768,6 +768,109 @@ Proof.
   intros Hexp Hrd Hadd Hres e Hin. unfold all_of in Hin. apply in_concat in Hin as [evs [Hevs Hin]].
   apply in_map_iff in Hevs as [g [<- Hg]]. exists g. split; [exact Hg|]. split; [exact Hin|].
   pose proof (expired_gone E s id flush n rd tadd T Hexp Hrd Hadd Hres g Hg). lia.
+Qed.
+
+(* "oldest first" = list order: when the clock readings used to open groups never decrease, the groups are listed by
+   non-decreasing expiry, so the walk emits expired groups oldest expiry first. *)
+Fixpoint add_times (l : list atom) : list Z :=
+  match l with [] => [] | AAdd id _ _ t :: r => if N.eqb id 0 then add_times r else t :: add_times r | _ :: r => add_times r end.
+
+Definition exp_sorted (gs : list grp) : Prop := StronglySorted Z.le (map gexp gs).
+
+Definition sinv (E : env) (hi : Z) (s : gst) : Prop := exp_sorted (groups s) /\ forall g, In g (groups s) -> gexp g <= hi + expiration E.
+
+Lemma SS_sub (l k : list Z) : StronglySorted Z.le l -> (exists f : list bool, k = map fst (filter snd (combine l f))) -> StronglySorted Z.le k.
+Proof.
+  intros Hs [f ->]. revert f. induction l as [|x t IH]; intros f; [constructor|]. destruct f as [|b f]; [constructor|].
+  inversion Hs as [|? ? Ht Hx]; subst. cbn [combine filter snd]. destruct b; cbn [map fst]; [|apply IH, Ht].
+  constructor; [apply IH, Ht|]. rewrite Forall_forall in *. intros y Hy. apply Hx. apply in_map_iff in Hy as [[z b] [<- Hin]].
+  apply filter_In in Hin as [Hin _]. apply in_combine_l in Hin. exact Hin.
+Qed.
+
+Lemma walk_sub E gs : forall sel o, exists f, map gexp (fst (fst (walk E sel o gs))) = map fst (filter snd (combine (map gexp gs) f)).
+Proof.
+  induction gs as [|g t IH]; intros sel o; cbn [walk]; [exists []; reflexivity|]. destruct (sel O g).
+  - destruct (open_gate E o g) as [o1 ok]. destruct ok.
+    + destruct (IH (fun i => sel (S i)) o1) as [f Hf]. exists (false :: f). exact Hf.
+    + exists (false :: map (fun _ => true) t). cbn [fst map combine filter snd]. clear. induction t as [|x r IHr]; [reflexivity|]. cbn. f_equal. exact IHr.
+  - destruct (IH (fun i => sel (S i)) o) as [f Hf]. destruct (walk E (fun i => sel (S i)) o t) as [[k o'] ok]. cbn [fst] in *.
+    exists (true :: f). cbn. f_equal. exact Hf.
+Qed.
+
+Lemma take_group_sub id gs : exists f, map gexp (snd (take_group id gs)) = map fst (filter snd (combine (map gexp gs) f)).
+Proof.
+  induction gs as [|g t IH]; cbn [take_group]; [exists []; reflexivity|]. destruct (N.eqb (gid g) id).
+  - exists (false :: map (fun _ => true) t). cbn [snd map combine filter]. clear. induction t as [|x r IHr]; [reflexivity|]. cbn. f_equal. exact IHr.
+  - destruct IH as [f Hf]. destruct (take_group id t) as [r k]. cbn [snd] in *. exists (true :: f). cbn. f_equal. exact Hf.
+Qed.
+
+Lemma add_ev_sorted e ex gs : exp_sorted gs -> (forall g, In g gs -> gexp g <= ex) -> exp_sorted (add_ev e ex gs).
+Proof.
+  unfold exp_sorted. induction gs as [|g t IH]; intros Hs Hle; cbn [add_ev map gexp]; [constructor; constructor|].
+  cbn [map] in Hs. inversion Hs as [|? ? Ht Hx]; subst. destruct (N.eqb (gid g) (eid e)); cbn [map gexp]; [constructor; assumption|].
+  constructor; [apply IH; [exact Ht|intros g0 H0; apply Hle; right; exact H0]|].
+  rewrite Forall_forall in *. intros y Hy. apply in_map_iff in Hy as [g1 [<- H1]]. apply add_ev_exp in H1 as [->|[g0 [H0 ->]]].
+  - apply Hle. left. reflexivity.
+  - apply Hx. apply in_map, H0.
+Qed.
+
+Lemma sub_in (l : list Z) f y : In y (map fst (filter snd (combine l f))) -> In y l.
+Proof. intros Hy. apply in_map_iff in Hy as [[z b] [<- Hin]]. apply filter_In in Hin as [Hin _]. apply in_combine_l in Hin. exact Hin. Qed.
+
+Lemma astep_sinv E hi s a : 0 <= expiration E -> sinv E hi s ->
+  (forall id f n t, a = AAdd id f n t -> hi <= t) ->
+  sinv E (match a with AAdd id _ _ t => if N.eqb id 0 then hi else t | _ => hi end) (fst (astep E s a)).
+Proof.
+  intros Hex [Hs Hb] Ha. destruct a as [rd|id flush n tadd|]; cbn [astep].
+  - unfold expire_list. destruct (walk_sub E (groups s) (expired rd) (out s)) as [f Hf].
+    destruct (walk E (expired rd) (out s) (groups s)) as [[k o'] ok]. cbn [fst] in *. unfold with_out, sinv. cbn [groups]. split.
+    + unfold exp_sorted. eapply SS_sub; [exact Hs|eauto].
+    + intros g Hg. assert (Hin : In (gexp g) (map gexp (groups s))) by (apply (sub_in _ f); rewrite <- Hf; apply in_map, Hg).
+      apply in_map_iff in Hin as [g0 [<- H0]]. apply Hb, H0.
+  - destruct (N.eqb id 0); [split; assumption|]. specialize (Ha _ _ _ _ eq_refl).
+    set (e := {| eid := id; en := n |}).
+    assert (Hs' : exp_sorted (add_ev e (tadd + expiration E) (groups s))).
+    { apply add_ev_sorted; [exact Hs|]. intros g Hg. specialize (Hb g Hg). lia. }
+    assert (Hb' : forall g, In g (add_ev e (tadd + expiration E) (groups s)) -> gexp g <= tadd + expiration E).
+    { intros g Hg. apply add_ev_exp in Hg as [->|[g0 [H0 ->]]]; [lia|]. specialize (Hb g0 H0). lia. }
+    destruct flush; [|split; assumption].
+    destruct (take_group_sub id (add_ev e (tadd + expiration E) (groups s))) as [f Hf].
+    pose proof (take_group_in id (add_ev e (tadd + expiration E) (groups s))) as Hin.
+    destruct (take_group id (add_ev e (tadd + expiration E) (groups s))) as [[g|] rest]; cbn [snd] in *.
+    + assert (Hr : sinv E tadd {| groups := rest; out := out s; accepted := accepted s |}).
+      { split; cbn [groups]; [unfold exp_sorted; eapply SS_sub; [exact Hs'|eauto]|intros g0 H0; apply Hb', Hin, H0]. }
+      destruct (compose E (gevs g)); cbn [fst]; split; cbn [groups]; apply Hr.
+    + cbn [fst]. split; [exact Hs|]. intros g Hg. specialize (Hb g Hg). lia.
+  - destruct (groups s) as [|g t] eqn:Eg; [cbn [fst]; split; [rewrite Eg|rewrite Eg]; assumption|]. destruct (broker_set E).
+    + unfold flush_list. destruct (walk_sub E (g :: t) (fun _ _ => true) (out s)) as [f Hf].
+      destruct (walk E (fun _ _ => true) (out s) (g :: t)) as [[k o'] ok]. cbn [fst] in *. unfold with_out, sinv. cbn [groups]. split.
+      * unfold exp_sorted. eapply SS_sub; [exact Hs|eauto].
+      * intros g0 Hg. assert (Hin : In (gexp g0) (map gexp (g :: t))) by (apply (sub_in _ f); rewrite <- Hf; apply in_map, Hg).
+        apply in_map_iff in Hin as [g1 [<- H1]]. apply Hb, H1.
+    + cbn [fst]. unfold with_out, sinv. cbn [groups]. split; [constructor|intros ? []].
+Qed.
+
+(* non-decreasing group-opening clock readings => the gate is ordered by expiry, oldest first *)
+Theorem groups_sorted_by_expiry E l : 0 <= expiration_cfg E -> StronglySorted Z.le (add_times l) -> exp_sorted (groups (arun E l)).
+Proof.
+  intros Hex Hmono. apply expiration_nonneg in Hex.
+  assert (Hgen : forall l s hi, sinv E hi s -> StronglySorted Z.le (add_times l) -> (forall t, In t (add_times l) -> hi <= t) ->
+                 exp_sorted (groups (fold_left (fun s a => fst (astep E s a)) l s))).
+  { clear l Hmono. induction l as [|a r IH]; intros s hi Hi Hm Hlo; cbn [fold_left]; [apply Hi|].
+    pose proof (astep_sinv E hi s a Hex Hi) as Hstep.
+    destruct a as [rd|id flush n tadd|]; cbn [add_times] in Hm, Hlo.
+    - eapply IH; [apply Hstep; intros; discriminate|exact Hm|exact Hlo].
+    - destruct (N.eqb id 0) eqn:Ei.
+      + assert (Hs0 : fst (astep E s (AAdd id flush n tadd)) = s) by (cbn [astep]; rewrite Ei; reflexivity).
+        rewrite Hs0. eapply IH; [exact Hi|exact Hm|exact Hlo].
+      + inversion Hm as [|? ? Hm' Hall]; subst. eapply IH; [|exact Hm'|].
+        * assert (Hx := Hstep). try rewrite Ei in Hx. apply Hx. intros ? ? ? ? H. injection H as _ _ _ <-. apply Hlo. left. reflexivity.
+        * intros t Ht. rewrite Forall_forall in Hall. apply Hall, Ht.
+    - eapply IH; [apply Hstep; intros; discriminate|exact Hm|exact Hlo]. }
+  destruct (add_times l) as [|t0 r] eqn:El.
+  - unfold arun. apply (Hgen l s0 0); [split; [constructor|intros ? []]|rewrite El; constructor|rewrite El; intros ? []].
+  - unfold arun. apply (Hgen l s0 t0); [split; [constructor|intros ? []]|rewrite El; exact Hmono|].
+    rewrite El. intros t [<-|Ht]; [lia|]. inversion Hmono as [|? ? _ Hall]; subst. rewrite Forall_forall in Hall. apply Hall, Ht.
 Qed.
 
 (* ================= gated part of C12 ================= *)
